@@ -3,6 +3,8 @@ import MirProofs.Lemmas.PyCmp
 import MirProofs.Props.C11_GenFns
 import MirProofs.Props.C11_Labels
 set_option linter.unusedSimpArgs false
+set_option linter.unusedTactic false
+set_option linter.unreachableTactic false
 namespace Mir.C11.GenCmp
 open Mir Mir.ChordCompare Mir.PyCmp
 open Mir.Chord (pyValidate toEnc Encoded)
@@ -172,7 +174,8 @@ theorem mirex_eq_model (ref est : List PyCmp.Str) (hne : ref ≠ [] ∨ est ≠ 
         have hc : (List.filter id (List.map (fun x => decide (0 < x)) (rowAt rs i).bm)).length =
             ((rowAt rs i).bm.filter (fun v => decide (v > 0))).length := by
           rw [List.filter_map, List.length_map]; rfl
-        simp [ChordCompare.cmp, ChordCompare.mirex, ChordCompare.dot, countPos, maskX, anyNeg, b2i, Cmp.test, hc]
+        simp [ChordCompare.cmp, ChordCompare.mirex, ChordCompare.dot, countPos, maskX, anyNeg, b2i, Cmp.test, hc] <;>
+          first | grind | (split_ifs <;> tauto)
 
 /-- on two EMPTY lists mirex does not return an empty array as the other eleven rules do: `np.asarray([])` is 1-D, the
     score is a 0-d `numpy.float64`, and the first masked store raises TypeError (observed on the real function; C11
